@@ -117,6 +117,26 @@ type Parser struct {
 
 	// Are we inside a function?
 	function bool
+
+	// depth is the nesting-depth of the expression being parsed.
+	depth int
+}
+
+// MaxDepth is the deepest nesting of expressions, and blocks, that
+// the parser will accept.  Deeper input is rejected with an error,
+// because the recursive handling of it would exhaust our stack.
+const MaxDepth = 5000
+
+// deeper records that the tree being built grew by one level, and
+// reports whether that is still acceptable.
+func (p *Parser) deeper() bool {
+	p.depth++
+	if p.depth > MaxDepth {
+		msg := fmt.Sprintf("input is nested too deeply around %s", p.curToken.Position())
+		p.errors = append(p.errors, msg)
+		return false
+	}
+	return true
 }
 
 // New returns a new parser.
@@ -313,6 +333,12 @@ func (p *Parser) parseExpressionStatement() *ast.ExpressionStatement {
 
 // parse an expression.
 func (p *Parser) parseExpression(precedence int) ast.Expression {
+	saved := p.depth
+	defer func() { p.depth = saved }()
+	if !p.deeper() {
+		return nil
+	}
+
 	postfix := p.postfixParseFns[p.curToken.Type]
 	if postfix != nil {
 		return (postfix())
@@ -341,6 +367,9 @@ func (p *Parser) parseExpression(precedence int) ast.Expression {
 			return leftExp
 		}
 		p.nextToken()
+		if !p.deeper() {
+			return nil
+		}
 		leftExp = infix(leftExp)
 
 		// Look for errors
@@ -686,6 +715,12 @@ func (p *Parser) parseGroupedExpression() ast.Expression {
 
 // parseIfCondition parses an if-expression.
 func (p *Parser) parseIfExpression() ast.Expression {
+	saved := p.depth
+	defer func() { p.depth = saved }()
+	if !p.deeper() {
+		return nil
+	}
+
 	expression := &ast.IfExpression{Token: p.curToken}
 
 	// Look for the condition, surrounded by "(" + ")".
